@@ -272,6 +272,39 @@ def job_scale(job):
         job.prove(f"scale/factor == c mu z / (2 p) at p_i[path{k}]", pr.pc + [not_close(factor, c * mu * z / (2 * p), abs_tol=Fraction(0))], bound="3-row table, p_i a node")
         slope = c / ((2 * p / (mu * z)) * factor)     # (1/rho_i) d rho/dp  /  (dm/dp * factor)
         job.prove(f"scale/d(rho/rho_i)/d(m~) == 1 at p_i[path{k}]", pr.pc + [not_close(slope, Q(1), abs_tol=Fraction(0))], bound="3-row table, p_i a node")
+    # a sweep over pressure pairs builds several wrappers from the SAME table object: the scaling of each one is that of
+    # its own initial pressure (nothing the first construction derived may steer the second)
+    node2 = 2
+
+    def twice():
+        t2 = {k_: SymArray(list(v.d), "f8") for k_, v in tab.items()}
+        mod.FlowProperties(t2, ps[node])
+        return mod.FlowProperties(t2, ps[node2])
+    for k, pr in enumerate(paths(job, twice, dom, max_paths=64)):
+        if pr.exc is not None:
+            job.prove(f"scale/second wrapper from the same table raises {type(pr.exc).__name__}[path{k}]", pr.pc, bound="3-row table", replay=replay_scale_twice, note=repr(pr.exc)[:80])
+            continue
+        obj = pr.value
+        factor = obj.pvt_props["m-scaled"].d[node2] / pp[node2]
+        c, mu, z, p = cols["compressibility"][node2], cols["viscosity"][node2], cols["z-factor"][node2], ps[node2]
+        job.prove(f"scale/second wrapper built from the same table: factor == c mu z / (2 p) at its own p_i[path{k}]",
+                  pr.pc + [not_close(factor, c * mu * z / (2 * p), abs_tol=Fraction(0))], bound="3-row table, p_i a node", replay=replay_scale_twice)
+
+
+def replay_scale_twice(model):
+    """Two FlowProperties from one dict of arrays (a sweep over initial pressures): the second one's scaling."""
+    import warnings
+    import numpy as np
+    from bluebonnet.flow import FlowProperties
+    p = np.array([1000.0, 3000.0, 6000.0, 9000.0])
+    tab = {"pressure": p, "pseudopressure": p ** 2 / 2e3, "compressibility": 1.0 / p, "viscosity": np.full(4, 0.02), "z-factor": np.ones(4)}
+    with warnings.catch_warnings():
+        warnings.simplefilter("ignore")
+        FlowProperties(tab, 3000.0)
+        second = FlowProperties(tab, 6000.0)
+        fresh_ = FlowProperties({k: v.copy() for k, v in tab.items() if k in ("pressure", "pseudopressure", "compressibility", "viscosity", "z-factor")}, 6000.0)
+    a, b = float(second.m_i), float(fresh_.m_i)
+    return abs(a - b) > 1e-12 * abs(b), {"what": f"second FlowProperties built from the same dict: m_i = {a!r}, a wrapper built from a fresh copy gives {b!r}", "inputs": {}}
 
 
 def job_balance(job, nx):
